@@ -501,7 +501,7 @@ impl event::Subscriber for Sub {
     }
 
     fn on_path_created(&mut self, _c: &mut (), meta: &events::ConnectionMeta, e: &events::PathCreated) {
-        self.emit(meta, Evt::PathCreated { path_id: e.new.id });
+        self.emit(meta, Evt::PathCreated { path_id: e.new.id, remote_port: port_of(&e.new.remote_addr) });
     }
 
     fn on_connection_id_updated(
